@@ -82,6 +82,12 @@ class MessageManager(interfaces.TokenInterface, interfaces.MessageManager):
             cancellable.cancel()
         self._active_exchanges = None
 
+        for _mid, empty_ack_timeout in self._piggyback_opportunities.values():
+            # The requests these would acknowledge have been stopped already;
+            # sending after the transport is gone would only raise.
+            empty_ack_timeout.cancel()
+        self._piggyback_opportunities = {}
+
         await self.message_interface.shutdown()
 
     #
